@@ -18,6 +18,7 @@ from ..histories import Profile, gen_write_op
 from ..model import MPoint
 from ..session import Session, cfg_name, default_config, norm_points
 
+REPLAY_BY_RERUN = True  # workloads are deterministic in (tier, seed, shard): replay re-runs the shard
 SHARDS = {"quick": 8, "thorough": 16}
 TIMEOUT = {"quick": 900, "thorough": 3600}
 N_HIST = {"quick": 8, "thorough": 150}
